@@ -38,6 +38,13 @@ CHECKS.update({
   text="Lookup over all subset pairs and histories <= 3 of 5/6-class hierarchies is exhaustive in the model and fully replayed on the real DSDLTemplateLoader; the real 32-class PyDSDL hierarchy, all instance tests/aliases and all environment additions are enumerated over all real names and sampled for combinations, every record judged by the TLA+ trace spec.",
   note=TB + "Python's __bases__ as the class relation, PyDSDL as the instance source."),
 })
+
+CHECKS.update({
+ "C14": dict(cat="model_checking", ref="DESIGN.md §6 C14, §7",
+  technique="TLA+ refinement: byte-wise CopyBits/GetBits state machine = pointwise contract, exhaustive in TLC; trace validation of C/C++/Python primitive calls incl. all 65536 halves and boundary float32 patterns (Ieee faithful relation)",
+  text="TLC checks exhaustively (offsets 0..9/15, lengths 0..17/20, 3-symbol buffers) that the implementation-shaped byte-wise algorithm equals the pointwise bit contract; grids of real calls of every primitive in C (any, little), C++ (bitspan) and Python (Serializer/Deserializer) - offsets 0..23, lengths 0..80, sizes need-1/need/need+1/0 with guard bytes, all 65536 halves, every float32 exponent x rounding boundary + random, monotonicity - are validated by the trace spec. The 2^32 float sweep of the property text is replaced by the structured subset (stated in DESIGN §7).",
+  note=TB + "gcc/g++ (+clang ASan in thorough) on little-endian x86-64; driver glue in vf/harness_prims.py."),
+})
 NOT_YET = {}
 props = [json.loads(l) for l in open(V / "properties.jsonl")]
 checks, na = [], []
